@@ -235,6 +235,137 @@ Definition decode (src : bytes) : outcome (list N) :=
   | _ => let ss := unpack_septets src in do rs <- dec_septets ss; dec_finish ss rs
   end.
 
+(* --- the transform.Transformer contract (both transformers, after the fix:
+   commits "report the source octets consumed", "clear the destination",
+   "ErrShortSrc until atEOF") ------------------------------------------------
+   A call Transform(dst, src, atEOF) is modelled with the destination AS THE
+   CALLER LEFT IT (any octets), and returns the whole destination after the
+   call, nDst, nSrc and the error.  len(src) is a separate argument so that the
+   same function serves a text (srclen = its UTF-8 length) and raw octets that
+   are not UTF-8 (srclen = their number, the runes are what Go's range yields). *)
+Inductive xerr := XNil | XShortDst | XShortSrc | XInvalid.
+Record xres := mkx { x_dst : bytes; x_ndst : nat; x_nsrc : nat; x_err : xerr }.
+
+(* for i := range dst[:n] { dst[i] = 0 }   (n <= len(dst) is checked before) *)
+Definition clear_prefix (n : nat) (dst : bytes) : outcome bytes :=
+  if Nat.ltb (length dst) n then Panic (* dst[:n] with n > len(dst) *) else Ok (repeat 0 n ++ skipn n dst).
+
+Definition enc_xf (dst : bytes) (t : list N) (srclen : nat) (ateof : bool) : outcome xres :=
+  match t with
+  | [] => Ok (mkx dst 0 0 XNil)                                  (* if len(src) == 0 { return } *)
+  | _ =>
+      if negb ateof then Ok (mkx dst 0 0 XShortSrc) else
+      match to_septets t with
+      | Panic => Panic
+      | Err _ => Ok (mkx dst 0 0 XInvalid)
+      | Ok s =>
+          let ndst := blocks (7 * length s) in
+          if Nat.ltb (length dst) ndst then Ok (mkx dst 0 0 XShortDst)
+          else do d0 <- clear_prefix ndst dst; do d <- pack_septets d0 s; Ok (mkx d ndst srclen XNil)
+      end
+  end.
+
+(* Go's UTF-8 encoding of a rune (buf.WriteRune in the decoder) *)
+Definition utf8_enc (r : N) : bytes :=
+  if r <? 0x80 then [r]
+  else if r <? 0x800 then [0xC0 + r / 64; 0x80 + r mod 64]
+  else if r <? 0x10000 then [0xE0 + r / 4096; 0x80 + (r / 64) mod 64; 0x80 + r mod 64]
+  else [0xF0 + r / 262144; 0x80 + (r / 4096) mod 64; 0x80 + (r / 64) mod 64; 0x80 + r mod 64].
+Definition utf8_bytes (rs : list N) : bytes := flat_map utf8_enc rs.
+
+(* what `for _, r := range string(src)` yields: utf8.DecodeRune on every position,
+   U+FFFD with width 1 for every octet that does not start a well-formed sequence *)
+Definition cont (b : N) : bool := (0x80 <=? b) && (b <=? 0xBF).
+Fixpoint utf8_dec (s : bytes) : list N :=
+  match s with
+  | [] => []
+  | b0 :: r0 =>
+      if b0 <? 0x80 then b0 :: utf8_dec r0
+      else if (0xC2 <=? b0) && (b0 <=? 0xDF) then
+        match r0 with
+        | b1 :: r1 => if cont b1 then ((b0 mod 32) * 64 + b1 mod 64) :: utf8_dec r1 else 0xFFFD :: utf8_dec r0
+        | [] => 0xFFFD :: utf8_dec r0
+        end
+      else if (0xE0 <=? b0) && (b0 <=? 0xEF) then
+        match r0 with
+        | b1 :: b2 :: r2 =>
+            if ((if b0 =? 0xE0 then 0xA0 else 0x80) <=? b1) && (b1 <=? (if b0 =? 0xED then 0x9F else 0xBF)) && cont b2
+            then (((b0 mod 16) * 64 + b1 mod 64) * 64 + b2 mod 64) :: utf8_dec r2
+            else 0xFFFD :: utf8_dec r0
+        | _ => 0xFFFD :: utf8_dec r0
+        end
+      else if (0xF0 <=? b0) && (b0 <=? 0xF4) then
+        match r0 with
+        | b1 :: b2 :: b3 :: r3 =>
+            if ((if b0 =? 0xF0 then 0x90 else 0x80) <=? b1) && (b1 <=? (if b0 =? 0xF4 then 0x8F else 0xBF)) && cont b2 && cont b3
+            then ((((b0 mod 8) * 64 + b1 mod 64) * 64 + b2 mod 64) * 64 + b3 mod 64) :: utf8_dec r3
+            else 0xFFFD :: utf8_dec r0
+        | _ => 0xFFFD :: utf8_dec r0
+        end
+      else 0xFFFD :: utf8_dec r0
+  end.
+
+(* gsm7Encoder.Transform on raw source octets *)
+Definition enc_xfb (dst src : bytes) (ateof : bool) : outcome xres := enc_xf dst (utf8_dec src) (length src) ateof.
+
+(* gsm7Decoder.Transform: the whole UTF-8 buffer is copied into dst (the filler CR
+   included), then nDst-- drops the filler from what is claimed *)
+Definition dec_xf (dst src : bytes) (ateof : bool) : outcome xres :=
+  match src with
+  | [] => Ok (mkx dst 0 0 XNil)
+  | _ =>
+      if negb ateof then Ok (mkx dst 0 0 XShortSrc) else
+      let ss := unpack_septets src in
+      match dec_septets ss with
+      | Panic => Panic
+      | Err _ => Ok (mkx dst 0 0 XInvalid)
+      | Ok rs =>
+          let buf := utf8_bytes rs in
+          let n := length buf in
+          if Nat.ltb (length dst) n then Ok (mkx dst 0 0 XShortDst)
+          else do f <- filler_present ss;
+               Ok (mkx (buf ++ skipn n dst) (if f then n - 1 else n) (length src) XNil)
+      end
+  end.
+
+(* What the x/text drivers make of a transformer (transform.Bytes / String /
+   Reader / Writer+Close all end in Transform(dst, whole src, true) with a
+   destination that is large enough, or fail): the octets claimed, or the error. *)
+Definition xf_value (x : outcome xres) : outcome bytes :=
+  match x with
+  | Panic => Panic
+  | Err e => Err e
+  | Ok r => match x_err r with
+            | XNil => Ok (firstn (x_ndst r) (x_dst r))
+            | XShortDst => Err ESize
+            | XShortSrc => Err EOther
+            | XInvalid => Err EText
+            end
+  end.
+
+(* A caller that follows the x/text contract (transform.Writer, Reader, String) over a source that
+   arrives in chunks: hand over what it has with atEOF=false; keep everything the transformer did
+   not consume, append the next chunk; at the end call with atEOF=true.  [Err EOther]: the
+   transformer consumed or produced something before atEOF - a streaming transformer, which
+   neither of these two is. *)
+Fixpoint feed (T : bytes -> bytes -> bool -> outcome xres) (d0 pending : bytes) (chunks : list bytes) : outcome bytes :=
+  match chunks with
+  | [] => xf_value (T d0 pending true)
+  | c :: rest =>
+      match T d0 (pending ++ c) false with
+      | Ok r =>
+          match x_err r with
+          | XShortSrc | XNil =>
+              if Nat.eqb (x_ndst r) 0 && Nat.eqb (x_nsrc r) 0 then feed T d0 (pending ++ c) rest else Err EOther
+          | XShortDst => Err ESize
+          | XInvalid => Err EText
+          end
+      | Err e => Err e
+      | Panic => Panic
+      end
+  end.
+
+
 (* --- observables used by the generated cases ---------------------------- *)
 Definition beq_runes := beq_bytes.
 (* cls: 0 value returned, 1 error, 2 panic, 3 transform.ErrShortDst *)
@@ -293,24 +424,91 @@ Definition dec_obs_ok (src : bytes) (cls : N) (rs : list N) : bool :=
    it is tolerated; octets returned into too small a destination are not. *)
 Definition cap_obs_ok {A} (eq : A -> A -> bool) (x : outcome A) (cls : N) (v : A) : bool :=
   (cls =? 3) && negb (is_panic x) || out_is eq x cls v.
+(* the decoder asks for room for the filler CR before it drops it; one that checks afterwards returns
+   the text where the model says ErrShortDst - the same text Bytes returns, and it fits: not a mismatch *)
+Definition dcap_obs_ok (dstlen : nat) (src : bytes) (cls : N) (rs : list N) : bool :=
+  cap_obs_ok beq_runes (dec_transform dstlen src) cls rs
+  || match dec_transform dstlen src with
+     | Err ESize => (cls =? 0) && out_is beq_runes (decode src) 0 rs && Nat.leb (utf8_total rs) dstlen
+     | _ => false
+     end.
 
-(* --- the code before the fix: commits (for the ..._before_fix witnesses) -- *)
-(* D13: inverse table built over 256 slots (128 unused slots hold rune 0), ESC slot not skipped *)
-Definition forward_lookup_legacy (r : N) : option N :=
-  fwd_build false 0 (reverse_lookup ++ repeat 0 128) r None.
-(* D14: else if bit == 0 && item == cr { dst[index] = 0x00; pack(cr) } *)
-Definition pack_septets_legacy (dst : bytes) (septets : list N) : outcome bytes :=
-  do st <- pack_all (mkp dst 0 0) septets;
-  if Nat.eqb (8 - p_bit st) 7
-  then do st' <- pack_one st cr; Ok (p_dst st')
-  else if Nat.eqb (p_bit st) 0 && (last septets 0 =? cr)
-  then match nth_error (p_dst st) (p_index st) with
-       | None => Panic
-       | Some _ => do st' <- pack_one (mkp (upd (p_index st) 0 (p_dst st)) (p_index st) (p_bit st)) cr; Ok (p_dst st')
-       end
-  else Ok (p_dst st).
-(* D15: n := len(decoded); n > 2 && (decoded[n-1] == cr || decoded[n-2] == cr) => nDst-- (on UTF-8 octets;
-   stated here for texts below U+0080, one octet per rune) *)
-Definition dec_finish_legacy (rs : list N) : list N :=
-  let n := length rs in
-  if Nat.ltb 2 n && ((nth (n - 1) rs 0 =? cr) || (nth (n - 2) rs 0 =? cr)) then removelast rs else rs.
+(* One direct call Transform(dst, src, atEOF), observed as (cls, nDst, nSrc, dst[:nDst]) with
+   cls 0 nil / 1 another error / 2 panic / 3 ErrShortDst / 4 ErrShortSrc, against the model.
+   Exact where the x/text contract pins the answer.  Tolerated, because transform.Bytes / String /
+   Reader / Writer then still deliver the same octets: ErrShortDst (nothing claimed) although the
+   output would fit, as long as the destination is less than 8 octets larger than the output; and
+   success where the model is short of room, provided the octets are the right ones, fit, and the
+   whole source is consumed.  [amb] allows the optional further octet holding the second CR. *)
+Definition slack : nat := 8.
+Definition xf_obs_ok (lenient : bool) (m : outcome xres) (dstlen srclen : nat) (amb : unit -> bool) (whole : unit -> outcome bytes)
+    (cls : N) (ndst nsrc : nat) (out : bytes) : bool :=
+  match m with
+  | Panic => cls =? 2
+  | Err _ => false
+  | Ok r =>
+      match x_err r with
+      | XNil =>
+          ((cls =? 0) && Nat.eqb nsrc (x_nsrc r) && Nat.eqb ndst (length out) &&
+             (beq_bytes out (firstn (x_ndst r) (x_dst r)) ||
+              (beq_bytes out (firstn (x_ndst r) (x_dst r) ++ [cr]) && Nat.leb ndst dstlen && amb tt)))
+          || ((cls =? 3) && Nat.eqb ndst 0 && Nat.eqb nsrc 0 && Nat.ltb dstlen (x_ndst r + slack))
+      | XShortDst =>
+          ((cls =? 3) && Nat.eqb ndst 0 && Nat.eqb nsrc 0)
+          || ((cls =? 0) && Nat.eqb nsrc srclen && Nat.eqb ndst (length out) && Nat.leb ndst dstlen &&
+              match whole tt with
+              | Ok o => beq_bytes out o || (beq_bytes out (o ++ [cr]) && amb tt)
+              | _ => false
+              end)
+      | XShortSrc => (cls =? 4) && Nat.eqb ndst 0 && Nat.eqb nsrc 0
+      | XInvalid => (cls =? 1) || ((cls =? 3) && Nat.eqb ndst 0 && Nat.eqb nsrc 0 && Nat.ltb dstlen (srclen + slack))
+                    (* [lenient] (decoder, arbitrary octets): C08 asks for "a value or an error"; a decoder that shows
+                       something for a lone ESC / an unknown escape code is not wrong, its counts must still be consistent *)
+                    || (lenient && (cls =? 0) && Nat.eqb nsrc srclen && Nat.eqb ndst (length out) && Nat.leb ndst dstlen)
+      end
+  end.
+
+(* encoder: destination d0 as the caller left it, raw source octets *)
+Definition enc_call_ok (d0 src : bytes) (ateof : bool) (cls : N) (ndst nsrc : nat) (out : bytes) : bool :=
+  let t := utf8_dec src in
+  xf_obs_ok false (enc_xfb d0 src ateof) (length d0) (length src) (fun _ => ambiguous t) (fun _ => encode t) cls ndst nsrc out.
+(* decoder: out is UTF-8; in the ambiguous reading (8k septets, the last one CR) C08 lets the
+   decoder keep or drop that CR *)
+Definition dec_value (src : bytes) : outcome bytes := do rs <- decode src; Ok (utf8_bytes rs).
+Definition dec_call_ok (d0 src : bytes) (ateof : bool) (cls : N) (ndst nsrc : nat) (out : bytes) : bool :=
+  xf_obs_ok true (dec_xf d0 src ateof) (length d0) (length src)
+    (fun _ => match filler_present (unpack_septets src) with Ok f => f | _ => false end) (fun _ => dec_value src) cls ndst nsrc out.
+
+(* The other public entry points of the same objects (Encoder.String, transform.Writer + Close under any
+   chunking of the Write calls, transform.Reader under any chunking of the source, one Encoder object
+   used again): every one ends in Transform(dst, whole source, true), so what it returns must be what
+   Bytes returns: cls 0 with the same octets, or cls 1 exactly when Bytes fails.  cls 5 = did not return. *)
+Definition enc_entry_ok (src : bytes) (cls : N) (out : bytes) : bool :=
+  let t := utf8_dec src in
+  match xf_value (enc_xfb (repeat 0xFF (needed t)) src true) with
+  | Ok o => (cls =? 0) && (beq_bytes out o || (beq_bytes out (o ++ [cr]) && ambiguous t))
+  | Err _ => cls =? 1
+  | Panic => cls =? 2
+  end.
+Definition dec_entry_ok (src : bytes) (cls : N) (out : bytes) : bool :=
+  match dec_value src with
+  | Ok o => (cls =? 1) || ((cls =? 0) && (beq_bytes out o || beq_bytes (out ++ [cr]) o || beq_bytes out (o ++ [cr])))
+  | Err _ => (cls =? 0) || (cls =? 1)
+  | Panic => cls =? 2
+  end.
+
+(* transform.Writer fed with the given chunks (one Write each), then Close *)
+Definition enc_feed_ok (chunks : list bytes) (cls : N) (out : bytes) : bool :=
+  let t := utf8_dec (List.concat chunks) in
+  match feed enc_xfb (repeat 0xFF (needed t)) [] chunks with
+  | Ok o => (cls =? 0) && (beq_bytes out o || (beq_bytes out (o ++ [cr]) && ambiguous t))
+  | Err _ => cls =? 1
+  | Panic => cls =? 2
+  end.
+Definition dec_feed_ok (chunks : list bytes) (cls : N) (out : bytes) : bool :=
+  let src := List.concat chunks in
+  match feed dec_xf (repeat 0xFF (3 * length (unpack_septets src))) [] chunks with
+  | Ok o => (cls =? 1) || ((cls =? 0) && (beq_bytes out o || beq_bytes (out ++ [cr]) o || beq_bytes out (o ++ [cr])))
+  | Err _ => (cls =? 0) || (cls =? 1)
+  | Panic => cls =? 2
+  end.
